@@ -12,7 +12,7 @@ from streamflow.data.remotepath import LocalStreamFlowPath, RemoteStreamFlowPath
 from sfv.framework import Ctx, Property
 from sfv.rt.hexs import hx, unhx
 from sfv.rt.sfctx import make_context
-from sfv.rt.shfake import Hang, MiniConnector, run_watchdog
+from sfv.rt.shfake import in_scratch_cwd, Hang, MiniConnector, run_watchdog
 from sfv.rt.trees import NAME_CORPUS, diff, make_tree, rand_name, snapshot
 from sfv.translate import cmdtmpl
 
@@ -33,8 +33,8 @@ class C24(Property):
     props_files = ["SFV/Props/C24.lean"]
     drivers = ["Drivers/C24.lean"]
     translators = [cmdtmpl.generate]
-    quick_budget_s = 600
-    op_timeout = 25
+    quick_budget_s = 900
+    op_timeout = 8
     rule = ("random trees (names with blanks, quotes, $, backticks, glob characters, unicode, leading dashes, newlines; symlinks; contents with "
             "leading/trailing whitespace) are created twice; random sequences of the 16 path operations are executed through LocalStreamFlowPath on "
             "one copy and through RemoteStreamFlowPath over a persistent-sh connector (MiniConnector) on the other; after every operation the "
@@ -62,7 +62,11 @@ class C24(Property):
         import logging
         logging.getLogger("streamflow").setLevel(logging.ERROR)
         self.gen = getattr(self, "gen", 0) + 1
-        self.table = cmdtmpl.table(os.environ.get("SFV_REPO", "/repo"))
+        try:
+            self.table = cmdtmpl.table(os.environ.get("SFV_REPO", "/repo"))
+        except Exception as e:  # noqa: BLE001  (the framework has already recorded the broken extractor)
+            ctx.notes.append(f"command-template table unavailable: {e}")
+            self.table = []
         self.by_op: dict[str, list[dict]] = {}
         for r in self.table:
             self.by_op.setdefault(r["op"], []).append(r)
@@ -217,7 +221,7 @@ class C24(Property):
         known = list(entries)
         for _ in range(nops):
             name = rng.choice(OPS)
-            if name == "walk" and rng.random() < 0.6:
+            if name == "walk" and rng.random() < 0.85:
                 name = rng.choice(OPS)
 
             def fresh():
@@ -383,6 +387,7 @@ class C24(Property):
         self.expect.append((name, real, len(variants), {"op": name, "path": full, "args": {k: str(v)[:40] for k, v in a.items()}}))
 
     # ------------------------------------------------------------------------------------------------------------
+    @in_scratch_cwd
     def explore(self, ctx: Ctx) -> None:
         from sfv.rt.shfake import limit_failures
         limit_failures(ctx)
@@ -390,7 +395,7 @@ class C24(Property):
         rng = ctx.rng
         big = ctx.tier == "thorough" or ctx.mode == "search"
         # the extractor's view of the source must classify today's operations as the baseline says
-        n_tame, n_nasty = (40, 80) if big else (6, 12)
+        n_tame, n_nasty = (40, 80) if big else (5, 10)
         for i in range(n_tame + n_nasty):
             if ctx.out_of_time():
                 ctx.extra["incomplete"] = True
@@ -405,7 +410,17 @@ class C24(Property):
                      "args": {"mode": 0o755, "parents": g.random() < 0.5, "exist_ok": g.random() < 0.5}} for _ in range(10)]
             plan.insert(3, {"op": "write_text", "path": "b", "args": {"data": "x"}})
             self.run_sequence(ctx, tame=True, seq_seed=r2, ops=plan)
-        got = ctx.lean("Drivers/C24.lean", self.lines) if self.lines else []
+        # walk: one guaranteed case on a directory with a sub-directory (never terminates today: known finding) and one on a flat directory
+        self.run_sequence(ctx, tame=True, seq_seed=rng.randrange(1 << 30), ops=[
+            {"op": "mkdir", "path": "wflat", "args": {"mode": 0o755, "parents": False, "exist_ok": False}},
+            {"op": "write_text", "path": "wflat/f1", "args": {"data": "x"}},
+            {"op": "walk", "path": "wflat", "args": {"follow": False}},
+            {"op": "mkdir", "path": "wdeep/sub", "args": {"mode": 0o755, "parents": True, "exist_ok": True}},
+            {"op": "walk", "path": "wdeep", "args": {"follow": False}}])
+        # one driver call for both kinds of lines
+        all_lines = self.lines + self.fs_lines
+        all_got = ctx.lean("Drivers/C24.lean", all_lines) if all_lines else []
+        got, fs_got = all_got[:len(self.lines)], all_got[len(self.lines):]
         pos = 0
         for name, real, nv, sample in self.expect:
             outs = got[pos:pos + nv]
@@ -414,12 +429,13 @@ class C24(Property):
                 ctx.disagree(f"template of RemoteStreamFlowPath.{name}", f"real command {real!r} is not the rendering of any extracted variant "
                              f"{[unhx(o) if o != 'bad-op' else o for o in outs]}", sample)
         if self.fs_lines:
-            for g, (e, sample) in zip(ctx.lean("Drivers/C24.lean", self.fs_lines), self.fs_expect):
+            for g, (e, sample) in zip(fs_got, self.fs_expect):
                 ctx.count("fs-model:mkdir")
                 if g != e:
                     ctx.disagree("FS model of mkdir (local API / remote command)", f"real {e!r}, Lean model {g!r}", sample)
         ctx.extra["templates"] = {r["lean"]: ("quoted" if r["quoted"] else "NOT-quoted") for r in self.table if r["via"] != "env"}
 
+    @in_scratch_cwd
     def replay(self, ctx: Ctx, data) -> None:
         self._setup(ctx)
         r = data.get("replay") or {}
